@@ -64,7 +64,66 @@ pub fn run(check: &mut Check) {
             });
         }
     }
+    exported(check);
     if std::env::var("VERIF_KEEP").is_err() {
         let _ = std::fs::remove_dir_all(exec::WS);
+    }
+}
+
+/// second half of the property: exported resources (see c07x.rs)
+fn exported(check: &mut Check) {
+    use crate::c07x::{self, Flavour};
+    let thorough = check.tier == vcommon::Tier::Thorough;
+    let mut flavours: Vec<Flavour> = vec![];
+    for name in 0..c07x::NAMES.len() {
+        for k in 0..if thorough { 6 } else { 1 } {
+            let j = name + k;
+            flavours.push(Flavour { name, fallible: j % 2 == 1, variant: (j / 2) % c07x::VARIANTS.len() });
+        }
+    }
+    let per = std::env::var("VERIF_NSEQ").ok().and_then(|s| s.parse().ok()).unwrap_or(check.tier.pick(150usize, 3000));
+    let seqs: Vec<Vec<c07x::Op>> = check.draw("exported", &c07x::sequence(), per * flavours.len());
+    let members: Vec<Member> = flavours.iter().map(c07x::member).collect();
+    let built = exec::build_rust(&members);
+    for (k, ((fl, m), b)) in flavours.iter().zip(&members).zip(&built).enumerate() {
+        let so = match b {
+            Ok(p) => p,
+            Err(e) if e.starts_with("harness:") => vcommon::harness_error(format!("{e}\n{}", m.wit)),
+            Err(e) => {
+                // a resource world that does not compile is a failure of this property's domain:
+                // nothing about handles can be said
+                check.case("exported", &serde_json::json!({"flavour": fl}), |_, _| Err(Failure::new(format!("exported-resource not-built {}", m.variant), format!("the bindings of the exported-resource world do not build natively:\n{e}\nWIT:\n{}", m.wit))));
+                continue;
+            }
+        };
+        let loaded = match c07x::load(so, fl, &m.imports) {
+            Ok(l) => l,
+            Err(e) => {
+                check.case("exported", &serde_json::json!({"flavour": fl}), |_, _| Err(Failure::new(format!("exported-resource load-error {}", m.variant), format!("{e}\nWIT:\n{}", m.wit))));
+                continue;
+            }
+        };
+        for ops in &seqs[k * per..(k + 1) * per] {
+            let label = serde_json::json!({"flavour": fl, "resource": c07x::NAMES[fl.name], "ops": ops});
+            check.case("exported", &label, |_, obs| {
+                vcommon::abort::set_current(&serde_json::json!({"flavour": fl, "ops": ops, "wit": m.wit}).to_string());
+                let (fails, evals) = c07x::run_sequence(&loaded, ops);
+                obs.evals = evals;
+                obs.label(format!("exported:{}", m.variant));
+                if ops.iter().any(|o| matches!(o, c07x::Op::Consume(_) | c07x::Op::Unwrap(_) | c07x::Op::Many(..) | c07x::Op::TakeAgg(..) | c07x::Op::Drop(_))) {
+                    obs.nontrivial_by(&(fl, ops));
+                }
+                let r = match fails.into_iter().next() {
+                    Some((sig, msg)) => {
+                        let small = c07x::shrink(&loaded, ops, &sig);
+                        let msg = c07x::run_sequence(&loaded, &small).0.into_iter().find(|(s, _)| *s == sig).map(|x| x.1).unwrap_or(msg);
+                        Err(c07x::failure_of(fl, &small, &sig, &msg))
+                    }
+                    None => Ok(()),
+                };
+                vcommon::abort::clear();
+                r
+            });
+        }
     }
 }
